@@ -255,3 +255,56 @@ func SubselectOp(r *hx.Rng, d Desc) OpDesc {
 	}
 	return o
 }
+
+// preferDecimal is a hint from the mesh source to the next weld drawn for it (99: none): a clustered
+// mesh is built for one rounding-cell width and is mostly welded at exactly that decimal place.
+var preferDecimal = 99
+
+// Clustered: vertices that sit in the same or in ADJACENT rounding cells (cell width dv = 1, 10 or
+// 100, i.e. decimal place 0, -1, -2), on both sides of zero, at the cell centres, just inside and
+// exactly on the cell boundaries (+-0.4, +-0.49, +-0.5 of a cell).  Which vertices weld together, and
+// which triangles collapse, then depends on every boundary decision of the rounding key.
+func Clustered(r *hx.Rng) (d Desc, decimal int) {
+	dv := hx.Pick(r, []int64{1, 10, 10, 100, 100})
+	decimal = map[int64]int{1: 0, 10: -1, 100: -2}[dv]
+	offs := []int64{0}
+	switch dv {
+	case 10:
+		offs = []int64{-5, -4, -1, 0, 1, 4, 5}
+	case 100:
+		offs = []int64{-50, -49, -40, -1, 0, 1, 40, 49, 50}
+	}
+	lo, hi := -2, 1
+	if r.Bool() {
+		lo, hi = -1, 2
+	}
+	nv := r.Range(4, 9)
+	pos := Attr{Arity: 3, Name: "Position", Data: make([][]int64, nv)}
+	id := Attr{Arity: 1, Name: "a", Data: make([][]int64, nv)}
+	// two of the three axes vary over very few cells, so that many vertices differ on one axis only
+	narrow := r.Intn(3)
+	for v := 0; v < nv; v++ {
+		row := make([]int64, 3)
+		for c := 0; c < 3; c++ {
+			cell := int64(r.Range(lo, hi))
+			if c != narrow && r.Chance(2, 3) {
+				cell = 0
+			}
+			row[c] = cell*dv + hx.Pick(r, offs)
+		}
+		pos.Data[v] = row
+		id.Data[v] = []int64{int64(100 + v)}
+	}
+	d = Desc{Topo: int(modeling.TriangleTopology), Idx: []int{}, Mats: []Mat{}, Attrs: []Attr{pos, id}}
+	nref := nv
+	if r.Chance(1, 3) {
+		nref = r.Range(3, nv) // the last vertices stay unreferenced
+	}
+	order := r.Perm(nv)[:nref]
+	nt := r.Range(1, 5)
+	for t := 0; t < nt; t++ {
+		p := r.Perm(nref)
+		d.Idx = append(d.Idx, order[p[0]], order[p[1]], order[p[2]])
+	}
+	return d, decimal
+}
